@@ -210,7 +210,12 @@ def applyMsg (ds : DS) (stake : Gov.StakeView) (w : MW) (m : Json) : Option (Exc
     else
     some ((Cvm.call "uctk" w.l w.v w.k (J.strOf m "caller") (J.strOf m "callee") (J.intOf m "value") w0 (isZero || data == "") target (data != "")).map
       (fun (l, k) => { w with l := l, k := k }))
-  | "shield.deposit" => some ((Shield.deposit (shieldEnv ds) w.sh (J.strOf m "from") [("uctk", J.intOf m "amt")]).map (fun s => { w with sh := s }))
+  | "shield.deposit" =>
+    -- the stake an existing provider's deposit is checked against is recomputed from its delegations (not observable in the
+    -- post-state when the deposit is refused): what the delegations are worth in the staking observation before the message
+    let e := shieldEnv ds
+    let e := if ds.hasStk then { e with bondedAfter := fun a => if a == J.strOf m "from" then some (StakingD.stakeOf ds.stk a) else e.bondedAfter a } else e
+    some ((Shield.depositMsg e w.sh (J.strOf m "from") [("uctk", J.intOf m "amt")]).map (fun s => { w with sh := s }))
   | "shield.withdraw" => some ((Shield.withdraw (shieldEnv ds) w.sh (J.strOf m "from") [("uctk", J.intOf m "amt")]).map (fun s => { w with sh := s }))
   | "shield.purchase" =>
     some ((Shield.purchase (shieldEnv ds) w.l w.sh (J.intOf m "pool").toNat [("uctk", J.intOf m "amt")] (J.strOf m "from") false).map (fun (l, s) => { w with l := l, sh := s }))
@@ -494,6 +499,18 @@ def handleTx (ds : DS) (j : Json) : IO DS := do
       | "shield.deposit" =>
         ds := stat ds "mon.c06.deposit"
         for x in ShieldD.monDepositAccepted ds.shield (J.strOf m "from") do ds ← finding ds "monitor" "C06" "collateral_backed_by_stake" x
+        -- ... and within what the provider's delegations are really worth now (a slash changes that without any staking hook:
+        -- the recorded stake of an existing provider may be stale)
+        if ds.hasStk then
+          match Shield.findProvider ds.shield (J.strOf m "from") with
+          | some p =>
+            let real := StakingD.stakeOf ds.stk p.addr
+            let slack : Int := (ds.stk.dels.filter (·.1 == p.addr)).length + 1
+            if (Shield.findProvider pre.sh p.addr).isSome then ds := stat ds "sit.c06.deposit_by_existing_provider"
+            if p.bonded > real + slack then ds := stat ds "sit.c06.deposit_with_stale_recorded_stake"
+            if p.collateral - p.withdrawing > real + slack then
+              ds ← finding ds "monitor" "C06" "deposit_within_real_stake" s!"provider {p.addr}: deposit accepted; collateral {p.collateral} - withdrawing {p.withdrawing} exceeds the bonded stake {real} (recorded stake {p.bonded})"
+          | none => pure ()
         if ds.hasStk && (Shield.findProvider pre.sh (J.strOf m "from")).isNone then
           match Shield.findProvider ds.shield (J.strOf m "from") with
           | some p =>
